@@ -12,6 +12,9 @@
 //   todbl <units>   -> <bits>|nan     DoubleSupport::toDouble(const XalanDOMString&, MemoryManager&)
 //   valid <units>   -> 0|1            DoubleSupport::isValid(const XalanDOMString&)
 //   round|floor|ceil <bits> -> <bits>|nan
+//   xslt <units>    -> ok:<text>      transforms the fixed source document with the stylesheet given as UTF-16 units (ASCII) through
+//                                      XalanTransformer, text output rendered on one line; ONE transformation = one execution context /
+//                                      object factory, so XNumber/XString objects are recycled between the instructions of the stylesheet
 //   xpath <units>   -> ok:<text>      string(<expression>) through XPathEvaluator (glue: XNumber::str, XPath functions)
 //   xchain <fn> <units> -> ok:<text>  string(fn(number('<string>'))) through XPathEvaluator, fn in id|round|floor|ceiling
 //                                      (XString::num -> toDouble, XPath::functionRound/Floor/Ceiling, XNumber::str)
@@ -34,6 +37,7 @@
 #include <xalanc/XalanSourceTree/XalanSourceTreeParserLiaison.hpp>
 
 #include <cstdio>
+#include <sstream>
 #include <cstdlib>
 #include <cstring>
 #include <iostream>
@@ -149,6 +153,39 @@ static std::string evalXPath(XPathEnv& env, const XalanDOMString& expr)
     catch (...) { return "ERR:other"; }
 }
 
+static std::string runStylesheet(const std::string& units)
+{
+    // the stylesheet is ASCII: decode the 4-hex-digit units directly (XalanDOMString::push_back is linear)
+    std::string xsl;
+    xsl.reserve(units.size() / 4);
+    for (size_t i = 0; i + 3 < units.size(); i += 4)
+    {
+        unsigned v = 0;
+        for (size_t k = 0; k < 4; ++k)
+        {
+            const char c = units[i + k];
+            v = v * 16 + unsigned(c >= '0' && c <= '9' ? c - '0' : c >= 'a' && c <= 'f' ? c - 'a' + 10 : 0);
+        }
+        xsl.push_back(char(v));
+    }
+    static const char xml[] = "<?xml version='1.0'?><r a='1.5'>  -12.25  <e>7</e><e>8</e><e>9</e></r>";
+    std::istringstream xmlIn(xml), xslIn(xsl);
+    std::ostringstream out;
+    XalanTransformer t;
+    const XSLTInputSource src(&xmlIn), st(&xslIn);
+    const XSLTResultTarget target(out);
+    if (t.transform(src, st, target) != 0) return std::string("ERR:xslt ") + t.getLastError();
+    const std::string o = out.str();
+    std::string r = "ok:";
+    for (size_t i = 0; i < o.size(); ++i)
+    {
+        unsigned c = static_cast<unsigned char>(o[i]);
+        if (c >= 33 && c <= 126 && c != 92) r.push_back(char(c));
+        else { char b[8]; std::snprintf(b, sizeof b, "\\u%04x", c); r += b; }
+    }
+    return r;
+}
+
 static std::string answer(const std::string& op, const std::string& arg, XPathEnv* env)
 {
     MemoryManager& mm = XalanMemMgrs::getDefaultXercesMemMgr();
@@ -187,6 +224,7 @@ static std::string answer(const std::string& op, const std::string& arg, XPathEn
         for (const char* p = (fn == "id" ? "'))" : "')))"); *p; ++p) e.push_back(XalanDOMChar(*p));
         return evalXPath(*env, e);
     }
+    if (op == "xslt") return runStylesheet(arg);
     if (op == "todbl" || op == "valid" || op == "xpath")
     {
         XalanDOMString s(mm);
